@@ -401,7 +401,7 @@ fn timeout_case(sm: &mut Box<Sim>, k: &Rc<NetKern>, slot: u64) -> Out {
         2 => Some(limit_us * 2 + 10),
         _ => Some(d.range(K::Arg, 0, limit_us * 3)),
     };
-    let kind = d.choose(K::Arg, 5); // 0 unix accept_with_timeout, 1 tcp accept_with_timeout, 2 tcp read_with_timeout, 3 try_accept/try_connect, 4 tcp connect_with_timeout
+    let kind = d.choose(K::Arg, 6); // 5 tcp try_accept/try_connect/in-progress, 0 unix accept_with_timeout, 1 tcp accept_with_timeout, 2 tcp read_with_timeout, 3 try_accept/try_connect, 4 tcp connect_with_timeout
     k.eintr_left.set(*d.pick(K::Cfg, &[0, 0, 1, 2, 3, 6]));
     k.short_p.set(0);
     sm.draw_strategy(2);
@@ -485,6 +485,50 @@ fn timeout_case(sm: &mut Box<Sim>, k: &Rc<NetKern>, slot: u64) -> Out {
                             check_timeout("TcpStream::connect_with_timeout", t0, to, false);
                         }
                     }
+                    5 => {
+                        // TCP: try_accept never enters ppoll; empty queue -> None, pending connection -> Some
+                        let Some((mut l, port)) = bind_tcp() else {
+                            sh.port.set(1);
+                            sh.listening.set(true);
+                            sh.writer_dropped.set(true);
+                            return;
+                        };
+                        sh.port.set(port);
+                        let c = sched::cur_tid();
+                        sim().unwrap().threads[c].tag = TAG_TRY;
+                        let a = l.try_accept();
+                        sim().unwrap().threads[c].tag = 0;
+                        if !matches!(a, Ok(None)) {
+                            sched::fail("try|accept-on-empty-queue", format!("TcpListener::try_accept on an empty queue returned {}", if a.is_ok() { "a stream" } else { "an error" }));
+                        }
+                        sh.listening.set(true);
+                        while !sh.sent_ok.get() {
+                            sched::yield_now();
+                            let _ = tiny_std::thread::sleep(Duration::from_micros(20));
+                        }
+                        // loopback delivery is asynchronous to the client's system call: allow a few looks
+                        let mut got = false;
+                        for _ in 0..2000 {
+                            sim().unwrap().threads[c].tag = TAG_TRY;
+                            let a = l.try_accept();
+                            sim().unwrap().threads[c].tag = 0;
+                            match a {
+                                Ok(Some(_)) => {
+                                    got = true;
+                                    break;
+                                }
+                                Ok(None) => {
+                                    sched::yield_now();
+                                    std::thread::sleep(Duration::from_micros(100));
+                                }
+                                Err(e) => sched::fail("try|tcp-accept-error", format!("{e:?}")),
+                            }
+                        }
+                        *outcome.borrow_mut() = format!("tcp try_accept after connect -> {}", if got { "Some" } else { "None" });
+                        if !got {
+                            sched::fail("try|accept-misses-pending-connection", "TcpListener::try_accept returned no stream although a connection is established".to_string());
+                        }
+                    }
                     _ => {
                         // try_* never enter ppoll, whatever the state of the queue
                         let mut l = UnixListener::bind(&upath).unwrap_or_else(|e| sched::fail("harness|bind", format!("{e:?}")));
@@ -554,6 +598,50 @@ fn timeout_case(sm: &mut Box<Sim>, k: &Rc<NetKern>, slot: u64) -> Out {
                         }
                     }
                     4 => {}
+                    5 => {
+                        let c = sched::cur_tid();
+                        sim().unwrap().threads[c].tag = TAG_TRY;
+                        let r = TcpStream::try_connect(&addr);
+                        sim().unwrap().threads[c].tag = 0;
+                        let mut cur = match r {
+                            Ok(x) => x,
+                            Err(e) => sched::fail("try|tcp-connect-error", format!("TcpStream::try_connect to a listening port: {e:?}")),
+                        };
+                        let finish_blocking = sim().unwrap().dec.chance(K::Arg, 1, 2);
+                        let mut rounds = 0;
+                        let _st = loop {
+                            match cur {
+                                tiny_std::net::TcpTryConnect::Connected(s) => break s,
+                                tiny_std::net::TcpTryConnect::InProgress(p) => {
+                                    sim().unwrap().count("probe.tcp_connect_in_progress");
+                                    if finish_blocking {
+                                        match p.connect_blocking() {
+                                            Ok(s) => break s,
+                                            Err(e) => sched::fail("connect|error", format!("connect_blocking on an in-progress connection to a listening port: {e:?}")),
+                                        }
+                                    }
+                                    rounds += 1;
+                                    if rounds > 2000 {
+                                        sched::fail("try|tcp-connect-never-completes", "an in-progress connection to a listening loopback port stayed in progress".to_string());
+                                    }
+                                    sched::yield_now();
+                                    std::thread::sleep(Duration::from_micros(50));
+                                    sim().unwrap().threads[c].tag = TAG_TRY;
+                                    let r = p.try_connect();
+                                    sim().unwrap().threads[c].tag = 0;
+                                    cur = match r {
+                                        Ok(x) => x,
+                                        Err(e) => sched::fail("try|tcp-connect-error", format!("TcpStreamInProgress::try_connect: {e:?}")),
+                                    };
+                                }
+                            }
+                        };
+                        sh.sent_ok.set(true);
+                        while !sh.writer_dropped.get() {
+                            sched::yield_now();
+                            let _ = tiny_std::thread::sleep(Duration::from_micros(50));
+                        }
+                    }
                     _ => {
                         let c = sched::cur_tid();
                         sim().unwrap().threads[c].tag = TAG_TRY;
@@ -578,7 +666,7 @@ fn timeout_case(sm: &mut Box<Sim>, k: &Rc<NetKern>, slot: u64) -> Out {
     sched::run(sm);
     let _ = std::fs::remove_file(&path);
     let o = outcome.borrow().clone();
-    Out { sample: json!({"kind": "timeouts and try variants", "variant": kind, "limit_us": limit_us, "peer_acts_after_us": peer_delay_us, "outcome": o, "strategy": format!("{:?}", sm.strategy)}), nontrivial: k.n_ppoll_timeout.get() + k.n_eintr.get() >= 1 || kind == 3 }
+    Out { sample: json!({"kind": "timeouts and try variants", "variant": kind, "limit_us": limit_us, "peer_acts_after_us": peer_delay_us, "outcome": o, "strategy": format!("{:?}", sm.strategy)}), nontrivial: k.n_ppoll_timeout.get() + k.n_eintr.get() >= 1 || kind == 3 || kind == 5 }
 }
 
 /// SCM_RIGHTS through rusl sendmsg/recvmsg; the receiver runs in a forked child so that a read
